@@ -17,6 +17,12 @@ what the harness sends to the model driver).  Next to the data, per schema:
   lean/Gen/SchemaBuilds.lean          `family_builds : ∀ p ∈ familySpecs, buildSchema p.1 = .ok p.2`, `family_compiles`
   lean/Gen/Parsers.lean               `DOMParser.from_schema(S)` of the family schemas as `PM.DomWalk.Parser` data (rules in
                                       the encoding of the C19 tie), `<name>_rulesOk`, `family_rulesOk`
+  lean/Gen/RoundTrip.lean             for the schemas of RT_SCHEMAS (the bundled basic and list schemas): the export→import
+                                      tables of harness/rt_tables.py — `r<Name> : RParser` (the parser above + the selectors and
+                                      `get_attrs` of its rules in restricted form), `dt<Name> : ToDomT` (the `toDOM` functions
+                                      as data), `d<Name> := dt<Name>.toDom` — and `<name>_rtSchemaOk : rtSchemaOk r<Name> d<Name>
+                                      = true` by `decide +kernel` (the schema part of the round-trip theorem's hypothesis),
+                                      `<name>_rtForms` (how every node type is emitted and read back, as a table)
 
 The files are deterministic functions of what the library compiled: an unchanged /repo gives byte-identical files (written
 only when the text differs), so lake does not rebuild anything.  `lean/Family/Cxx.lean` (hand-written) instantiates the
@@ -208,6 +214,86 @@ def lean_parser(info, ident):
                                                      ("\n" + ",\n".join(styles)) if styles else ""))
 
 
+# the schemas whose export→import tables are written to lean/Gen/RoundTrip.lean, with the expected value of the schema part
+# `rtSchemaOk` (a fixed table: a value that flips because /repo changed a `toDOM` / `parseDOM` makes the theorem fail)
+RT_SCHEMAS = {"basic": True, "list": True, "marks-on-doc": True,
+              # family variants with a node type that has no `toDOM` / `parseDOM` (title, body, iso, table / row / cell, note /
+              # caption): the serializer has nothing to emit for it — the schema part is false, the theorem does not close
+              "title": False, "heading-body": False, "iso": False, "table": False, "marks-x": False}
+RT_TABLES = {}   # schema name → harness/rt_tables.py: tables(info) of the freshly built schema (a str: why it has none)
+
+
+def lean_chars(s):
+    return lean_str(s) + ".toList"
+
+
+def lean_tspec(t):
+    if t[0] == "s":
+        return "(.str %s)" % lean_chars(t[1])
+    if t[0] == "h":
+        return ".hole"
+    parts = ", ".join(".lit %s" % lean_chars(x) if k == "l" else ".attr %s" % lean_str(x) for k, x in t[1])
+    attrs = ", ".join("(%s, %s)" % (lean_chars(k), (".lit none" if x is None else ".lit (some %s)" % lean_chars(x)) if kind == "l"
+                                    else ".attr %s" % lean_str(x)) for k, (kind, x) in t[2])
+    return "(.el [%s] [%s] [%s])" % (parts, attrs, ", ".join(lean_tspec(c) for c in t[3]))
+
+
+def lean_node_t(T):
+    if T["generic"] is None and not T["cases"]:
+        return "{}"
+    cases = ", ".join("(%s, %s)" % (lean_opt_attrs(a)[5:], lean_tspec(t)) for a, t in T["cases"])
+    return "{ cases := [%s], generic := %s }" % (cases, "none" if T["generic"] is None else "some " + lean_tspec(T["generic"]))
+
+
+def lean_rt(name, ident, T):
+    """the tables of harness/rt_tables.py as Lean text: `r<ident>`, `dt<ident>`, `d<ident>`"""
+    sel = []
+    for tag, need, copy in T["sel"]:
+        f = ["tag := %s" % lean_str(tag)]
+        if need:
+            f.append("need := [%s]" % ", ".join(lean_str(x) for x in need))
+        if copy is not None:
+            f.append("copy := some [%s]" % ", ".join("(%s, %s)" % (lean_str(k), lean_str(a)) for k, a in copy))
+        sel.append("{ " + ", ".join(f) + " }")
+    D = T["toDom"]
+    out = ["/-- `DOMParser.from_schema` of schema `%s` with the selectors and `get_attrs` of its tag rules in restricted form -/" % name,
+           "def r%s : RParser :=\n  { P := p%s,\n    sel := [%s] }" % (ident, ident, ",\n            ".join(sel)), "",
+           "/-- the `toDOM` functions of schema `%s` as data (by node type id / mark type id) -/" % name,
+           "def dt%s : ToDomT :=\n  { nodes := [%s],\n    marks := [%s],\n    spanning := [%s] }" % (
+               ident, ",\n             ".join(lean_node_t(x) for x in D["nodes"]),
+               ",\n             ".join("{ inl := %s, blk := %s }" % (lean_node_t(x["inl"]), lean_node_t(x["blk"]))
+                                         for x in D["marks"]),
+               ", ".join(lean_bool(b) for b in D["spanning"])), "",
+           "def d%s : ToDom := dt%s.toDom" % (ident, ident), ""]
+    return out
+
+
+def render_roundtrip(items):
+    lr = [HEADER.rstrip("\n"), "import Gen.Parsers", "import PM.RoundTripSchema", "namespace PM.Gen.RoundTrip",
+          "open PM PM.Dom PM.FromDom PM.DomWalk PM.RoundTrip PM.Gen.Schemas PM.Gen.Parsers", ""]
+    for name, ident, fam, sd, dump in items:
+        T = RT_TABLES.get(name)
+        if name not in RT_SCHEMAS:
+            continue
+        if not isinstance(T, dict) or not PARSERS.get(name):
+            # the rules / toDOM functions of a bundled schema left the restricted form: the corollaries of
+            # lean/Family/C19RoundTrip.lean will not build, which the C19 check reports as a broken obligation
+            lr += ["-- schema `%s`: no tables (%s)" % (name, T if isinstance(T, str) else "parser not translated"), ""]
+            continue
+        lr += lean_rt(name, ident, T)
+        if RT_SCHEMAS[name]:
+            lr += ["/-- the schema part of the hypothesis of the round-trip theorem (Props/C19.lean: roundtrip_of_parts), decided by the",
+                   "    kernel on the tables above: every node / mark type of `%s` is, at its default attributes and at the static `attrs`" % name,
+                   "    of its parse rules, emitted in a form its first matching rule reads back as the same type with the same attributes -/"]
+        else:
+            lr += ["/-- the schema part of the hypothesis of the round-trip theorem is *false* of `%s` (kernel-evaluated): some node type" % name,
+                   "    has no `toDOM`, or is emitted in a form no rule reads back — `roundtrip_of_parts` does not close for this schema -/"]
+        lr += ["theorem %s_rtSchemaOk : rtSchemaOk r%s d%s = %s := by decide +kernel" % (
+            lname(ident), ident, ident, lean_bool(RT_SCHEMAS[name])), ""]
+    lr += ["end PM.Gen.RoundTrip"]
+    return "\n".join(lr) + "\n"
+
+
 def collect():
     """[(schema name, Lean identifier, in_family, spec dump, compiled dump)] — built by the real constructor *now*:
     the spec of each family schema is compiled afresh with `Schema(spec)` (not the object the harness built earlier)"""
@@ -234,6 +320,12 @@ def collect():
                     PARSERS[info.name] = lean_parser(SchemaInfo(fresh, info.name), ident)
                 except Exception:  # noqa: BLE001  (reported by the C19 check: its closed corollaries will not build)
                     pass
+            if info.name in RT_SCHEMAS:
+                from . import rt_tables
+                try:
+                    RT_TABLES[info.name] = rt_tables.tables(SchemaInfo(fresh, info.name))
+                except Exception as e:  # noqa: BLE001
+                    RT_TABLES[info.name] = "translator: %s: %s" % (type(e).__name__, str(e)[:200])
     return items
 
 
@@ -336,6 +428,7 @@ def render(items):
     lp += ["  · exact ⟨Parsers.%s_rulesOk, by simp [familySchemas, Parsers.p%s]⟩" % (lname(it[1]), it[1]) for it in par_items]
     lp += ["", "end PM.Gen"]
     files["Parsers.lean"] = "\n".join(lp) + "\n"
+    files["RoundTrip.lean"] = render_roundtrip(items)
     lf = [HEADER.rstrip("\n")] + ["import Gen.Guards.%s" % (f[0].upper() + f[1:]) for f, _ in GUARDS + MORE_GUARDS + EXTRA_GUARDS] + [
         "namespace PM.Gen", "open PM PM.Gen.Schemas", ""]
     for name, ident, fam, sd, dump in items:
@@ -404,7 +497,7 @@ def lname(ident):
     return ident[0].lower() + ident[1:]
 
 
-def gen_theorems(items, builds, parsers=False, guards=None):
+def gen_theorems(items, builds, parsers=False, guards=None, roundtrip=False):
     """fully qualified names of the generated theorems a check audits; `guards` = the guard fields whose modules the
     check builds (None = all, with the bundle)"""
     names = []
@@ -417,6 +510,8 @@ def gen_theorems(items, builds, parsers=False, guards=None):
                   if not any(f in EXPECT_FALSE.get(it[0], set()) for f, _ in GUARDS)] + ["PM.Gen.family_facts"]
     if parsers:
         names += ["PM.Gen.Parsers.%s_rulesOk" % lname(it[1]) for it in items if PARSERS.get(it[0])] + ["PM.Gen.family_rulesOk"]
+    if roundtrip:
+        names += ["PM.Gen.RoundTrip.%s_rtSchemaOk" % lname(it[1]) for it in items if it[0] in RT_SCHEMAS]
     if builds:
         for name, ident, fam, sd, dump in items:
             names.append("PM.Gen.SchemaBuilds.%s_compiles" % lname(ident))
@@ -465,6 +560,8 @@ def family_modules(prop):
     mods = []
     if os.path.exists(os.path.join(core.LEAN, "Family", prop + ".lean")):
         mods.append("Family." + prop)
+    if os.path.exists(os.path.join(core.LEAN, "Family", prop + "RoundTrip.lean")):
+        mods.append("Family." + prop + "RoundTrip")     # closed corollaries over lean/Gen/RoundTrip.lean (hand-written)
     return mods
 
 
